@@ -328,6 +328,9 @@ class Job:
         self.pos = 0
         self.submit_ok = submit_ok
         self.killed = False
+        # submitted fine, then disappeared from the job runner without ever
+        # starting (only a poll can tell: "never ran, no longer in runner")
+        self.vanished = False
         self.time_submit = '2000-01-01T00:00:00Z'
         self.time_run = None
         self.time_exit = None
@@ -354,7 +357,8 @@ class Job:
 
     @property
     def live(self):
-        return (self.submit_ok and not self.killed and self.final is None)
+        return (self.submit_ok and not self.killed and not self.vanished
+                and self.final is None)
 
     def has_next(self):
         return self.live and self.pos < len(self.script)
@@ -492,7 +496,9 @@ class Sim:
                 prereqs = self._prereq_snapshot(cycle, name)
                 script, ok = self._script_for(cycle, name, sn)
                 dup = key in self.jobs
-                job = Job(cycle, name, sn, script, ok)
+                job = Job(cycle, name, sn, script, bool(ok))
+                if ok == 'vanish':
+                    job.vanished = True
                 if not dup:
                     self.jobs[key] = job
                 self.ev('launch', cycle=cycle, name=name, submit_num=sn,
@@ -523,7 +529,7 @@ class Sim:
                 # earlier, so its callback runs before this poll's).
                 if job is not None and (
                         job.final is not None or job.killed
-                        or not job.submit_ok):
+                        or job.vanished or not job.submit_ok):
                     for it2 in self.pending_cmds():
                         if it2.get('kind') == 'jobs-submit' and \
                                 job.key in it2.get('jobs', ()):
@@ -623,7 +629,7 @@ class Sim:
         else:
             d.update(job_id=str(1), time_submit_exit=ts)
             fin = job.final
-            if job.killed and fin is None:
+            if (job.killed or job.vanished) and fin is None:
                 d['job_runner_exit_polled'] = 1
                 if job.started:
                     d['time_run'] = ts
@@ -643,9 +649,10 @@ class Sim:
             for m in job.emitted:
                 if m not in ('started', 'succeeded') and not m.startswith('failed'):
                     msgs.append(m)
-        lines = [f'[TASK JOB SUMMARY]{ts}|{rel}|{json.dumps(d)}']
-        for m in msgs:
-            lines.append(f'[TASK JOB MESSAGE]{ts}|{rel}|{ts}|INFO|{m}')
+        # (the real `cylc jobs-poll` prints a job's message lines before its
+        # summary line, and the callback handles lines in that order)
+        lines = [f'[TASK JOB MESSAGE]{ts}|{rel}|{ts}|INFO|{m}' for m in msgs]
+        lines.append(f'[TASK JOB SUMMARY]{ts}|{rel}|{json.dumps(d)}')
         return lines
 
     def _prereq_snapshot(self, cycle, name) -> dict:
